@@ -1016,3 +1016,184 @@ func builtinCallsOn(fn *ssa.Function, name string, f *types.Var) []ssa.Instructi
 func guardedBy(in ssa.Instruction, pred func(Atom) bool) bool {
 	return hasAtom(atomsAt(in.Block()), pred)
 }
+
+// ---------- A-FLOW: dependence closure ----------
+
+// dependenceClosure returns every SSA value the root is data- or
+// control-dependent on within its function: operands transitively; for a phi
+// also the branch conditions that select between its incoming edges; loads of
+// local cells are followed to the stores reaching them.
+func dependenceClosure(root ssa.Value) map[ssa.Value]bool {
+	seen := map[ssa.Value]bool{}
+	var visit func(v ssa.Value)
+	visit = func(v ssa.Value) {
+		if v == nil || seen[v] {
+			return
+		}
+		seen[v] = true
+		switch x := v.(type) {
+		case *ssa.Phi:
+			for i, e := range x.Edges {
+				visit(e)
+				pred := x.Block().Preds[i]
+				for _, f := range factsAt(pred) {
+					visit(f.Cond)
+				}
+				if len(pred.Instrs) > 0 {
+					if iff, ok := pred.Instrs[len(pred.Instrs)-1].(*ssa.If); ok {
+						visit(iff.Cond)
+					}
+				}
+			}
+			return
+		case *ssa.UnOp:
+			if a, ok := x.X.(*ssa.Alloc); ok && x.Op == token.MUL {
+				for _, s := range reachingStores(a, x) {
+					visit(s)
+				}
+			}
+		}
+		if in, ok := v.(ssa.Instruction); ok {
+			for _, op := range in.Operands(nil) {
+				if *op != nil {
+					visit(*op)
+				}
+			}
+		}
+	}
+	visit(root)
+	return seen
+}
+
+// allPathsPassBetween: every path from the start of block `from` to block `to`
+// (not through `to`) passes an instruction satisfying target.
+func allPathsPassBetween(from, to *ssa.BasicBlock, target instrPred) bool {
+	has := func(b *ssa.BasicBlock) bool {
+		for _, in := range b.Instrs {
+			if target(in) {
+				return true
+			}
+		}
+		return false
+	}
+	if from == to {
+		return false
+	}
+	if has(from) {
+		return true
+	}
+	seen := map[*ssa.BasicBlock]bool{from: true}
+	work := []*ssa.BasicBlock{from}
+	for len(work) > 0 {
+		b := work[len(work)-1]
+		work = work[:len(work)-1]
+		for _, s := range b.Succs {
+			if s == to {
+				return false
+			}
+			if seen[s] || has(s) {
+				continue
+			}
+			seen[s] = true
+			work = append(work, s)
+		}
+	}
+	return true
+}
+
+// counterPhis finds loop counters of fn: int phis with an incoming edge phi+1.
+// Returns phi -> increment instructions.
+func counterPhis(fn *ssa.Function) map[*ssa.Phi][]*ssa.BinOp {
+	out := map[*ssa.Phi][]*ssa.BinOp{}
+	eachInstr(fn, func(in ssa.Instruction) {
+		bo, ok := in.(*ssa.BinOp)
+		if !ok || bo.Op != token.ADD {
+			return
+		}
+		if c, isC := constInt(bo.Y); !isC || c != 1 {
+			return
+		}
+		// bo.X is the phi or a phi of phis leading back to the loop-header phi
+		root := loopHeaderPhi(bo.X, 0)
+		if root == nil {
+			return
+		}
+		if flowsBackTo(bo, root, 0, map[ssa.Value]bool{}) {
+			out[root] = append(out[root], bo)
+		}
+	})
+	return out
+}
+
+func loopHeaderPhi(v ssa.Value, d int) *ssa.Phi {
+	phi, ok := v.(*ssa.Phi)
+	if !ok || d > 4 {
+		return nil
+	}
+	return phi
+}
+
+func flowsBackTo(v ssa.Value, root *ssa.Phi, d int, seen map[ssa.Value]bool) bool {
+	if d > 8 || seen[v] {
+		return false
+	}
+	seen[v] = true
+	refs := v.Referrers()
+	if refs == nil {
+		return false
+	}
+	for _, ref := range *refs {
+		if phi, ok := ref.(*ssa.Phi); ok {
+			if phi == root {
+				return true
+			}
+			if flowsBackTo(phi, root, d+1, seen) {
+				return true
+			}
+		}
+	}
+	return false
+}
+
+// ---------- phi leaves with path facts ----------
+
+type phiLeaf struct {
+	Val   ssa.Value
+	Facts []Atom
+}
+
+// edgeAtoms: facts holding when control flows from pred to succ.
+func edgeAtoms(pred, succ *ssa.BasicBlock) []Atom {
+	as := append([]Atom{}, atomsAt(pred)...)
+	if len(pred.Instrs) > 0 {
+		if iff, ok := pred.Instrs[len(pred.Instrs)-1].(*ssa.If); ok && len(pred.Succs) == 2 && pred.Succs[0] != pred.Succs[1] {
+			if pred.Succs[0] == succ {
+				as = append(as, atomOf(iff.Cond, true))
+			} else if pred.Succs[1] == succ {
+				as = append(as, atomOf(iff.Cond, false))
+			}
+		}
+	}
+	return as
+}
+
+// phiLeaves flattens a tree of phis into its non-phi leaves, each with the
+// facts that hold along the incoming edges that select it.
+func phiLeaves(v ssa.Value) []phiLeaf {
+	return phiLeavesD(v, nil, 0, map[*ssa.Phi]bool{})
+}
+
+func phiLeavesD(v ssa.Value, facts []Atom, d int, seen map[*ssa.Phi]bool) []phiLeaf {
+	phi, ok := v.(*ssa.Phi)
+	if !ok || d > 6 || seen[phi] {
+		return []phiLeaf{{v, facts}}
+	}
+	seen[phi] = true
+	var out []phiLeaf
+	for i, e := range phi.Edges {
+		f := append(append([]Atom{}, facts...), edgeAtoms(phi.Block().Preds[i], phi.Block())...)
+		out = append(out, phiLeavesD(e, f, d+1, seen)...)
+	}
+	delete(seen, phi)
+	return out
+}
